@@ -139,6 +139,8 @@ pub struct World {
     pub force_propagate: bool,
     /// Pipelining scenario: every handler ends having read its final input stream to end-of-file.
     pub read_everything: bool,
+    /// C09 direct route: the request was built by hand with a later stream selected already.
+    pub preselected: bool,
     /// Kind of the injected read error (chosen per script).
     pub read_err_kind: io::ErrorKind,
     pub read_error_fired: bool,
@@ -177,7 +179,7 @@ impl World {
             wfault: WFault::None, write_calls: 0, flush_calls: 0, flooded: false, eval_idle_after_poll: false, peer_frozen: false, freeze_if_idle: false, shutdown_in_read_call: None, mid_poll_shutdown: None, calls_this_poll: 0, spun: false, write_failed_at: None, writes_after_failure: 0, write_dropped: false, lock_held_pending: false,
             end_requests: 0, replies_seen: 0, handler_log: Vec::new(), shutdown_requested_at_step: None, step: 0,
             current_poll_started_after_shutdown: false,
-            owed_triggers: Vec::new(), rec_bounds: Vec::new(), suspend_violation: None, empty_buf_reads: 0, force_propagate: false, read_everything: false, idle_at_shutdown: false, read_err_kind: io::ErrorKind::ConnectionReset, read_error_fired: false, reads_after_read_error: 0, retry_failed_writes: false,
+            owed_triggers: Vec::new(), rec_bounds: Vec::new(), suspend_violation: None, empty_buf_reads: 0, force_propagate: false, read_everything: false, preselected: false, idle_at_shutdown: false, read_err_kind: io::ErrorKind::ConnectionReset, read_error_fired: false, reads_after_read_error: 0, retry_failed_writes: false,
         }
     }
 
